@@ -82,6 +82,26 @@ func genAV1TU(t *core.Tape, mtu int) ([]av1OBU, []byte) {
 	curT, curS := byte(t.Intn(8)), byte(t.Intn(4))
 	for i := 0; i < n; i++ {
 		var o av1OBU
+		if i > 0 && t.Chance(1, 10) && len(obus[i-1].payload) < 4000 {
+			// a sibling of the previous OBU: same header, payload equal or different in one byte / in length by one
+			o = obus[i-1]
+			o.payload = append([]byte(nil), o.payload...)
+			switch t.Intn(4) {
+			case 1:
+				if len(o.payload) > 0 {
+					o.payload[t.Intn(len(o.payload))] ^= 1 << uint(t.Intn(8))
+				}
+			case 2:
+				if len(o.payload) > 0 {
+					o.payload = o.payload[:len(o.payload)-1]
+				}
+			case 3:
+				o.payload = append(o.payload, byte(t.Intn(256)))
+			}
+			o.hasSize = !(omitLastSize && i == n-1)
+			obus = append(obus, o)
+			continue
+		}
 		switch t.Weighted(6, 1, 1, 1, 1, 2) {
 		case 0:
 			o.typ = byte([]int{6, 3, 4, 5, 7, 15}[t.Intn(6)])
